@@ -446,12 +446,13 @@ class DocGen:
                         for k2, (ps, rq) in inherited.items():
                             if isinstance(ps, dict) and set(ps) == {"$ref"}:
                                 a_ = ps["$ref"].rsplit("/", 1)[1]
-                                if (self.schemas.get(a_) or {}).get("additionalProperties") is False:
-                                    continue  # (a closed model read through its own class would drop the extension's properties)
+                                if (self.schemas.get(a_) or {}).get("additionalProperties") not in (None, True):
+                                    continue  # (read through the BASE class - which is what the generator does, C15's subject - a closed or
+                                    #  typed-additional-properties model would drop or mis-decode the extension's own properties)
                                 for b_, sb in self.schemas.items():
                                     if b_ != nm and isinstance(sb, dict) and isinstance(sb.get("allOf"), list) and sb["allOf"] and sb["allOf"][0] == {"$ref": f"#/components/schemas/{a_}"}:
                                         refs.append((k2, b_))
-                        if refs and r.random() < 0.5:
+                        if refs and r.random() < 0.8:
                             k2, b_ = r.choice(refs)
                             extra["properties"] = {k2: self.ref(b_), **extra["properties"]}
                         # ... or narrows the ITEMS of an inherited array (number -> integer, string -> date)
@@ -522,6 +523,26 @@ class DocGen:
                                 if free:
                                     self.schemas[u]["properties"][free[0]] = self.ref(cname)
                         break
+        if self.on("allof_tighten") and self.on("allof") and r.random() < 0.35:
+            # the covariant-property idiom, spelled out: Owner.pet: Animal; Cat = allOf[Animal, ...]; CatOwner = allOf[Owner, {pet: Cat}]
+            cands = []
+            for pn_, ps_ in self.schemas.items():
+                if self.schema_kind.get(pn_) == "model" and isinstance(ps_.get("properties"), dict):
+                    for k2, v2 in ps_["properties"].items():
+                        if isinstance(v2, dict) and set(v2) == {"$ref"}:
+                            a_ = v2["$ref"].rsplit("/", 1)[1]
+                            sa = self.schemas.get(a_) or {}
+                            if a_ != pn_ and self.schema_kind.get(a_) == "model" and isinstance(sa.get("properties"), dict) and sa["properties"] and sa.get("additionalProperties") in (None, True):
+                                cands.append((pn_, k2, a_))
+            if cands:
+                pn_, k2, a_ = r.choice(cands)
+                b_, c_ = "M" + self.token(), "M" + self.token()
+                taken_a = self._all_prop_names(a_)
+                extra_b = {n_: {"type": r.choice(["string", "integer"])} for n_ in self.pick_names(PROP_VOCAB, 1, taken_a)} or {"extra_" + self.token(): {"type": "string"}}
+                self.schemas[b_] = {"allOf": [self.ref(a_), {"type": "object", "properties": extra_b}]}
+                self.schemas[c_] = {"allOf": [self.ref(pn_), {"type": "object", "properties": {k2: self.ref(b_)}}]}
+                self.schema_kind[b_] = "allof"
+                self.schema_kind[c_] = "allof"
         if self.on("shuffle_decl"):
             order = list(self.schemas)
             mode = r.choice(["shuffle", "reverse", "shuffle"])
